@@ -20,7 +20,8 @@ def dags(draw, min_jobs=1, max_jobs=12, ngroups=1, max_est=6, allow_cycles=False
                 "name": f"j{i}",
                 "blocked_by": [f"j{b}" for b in blk],
                 "cancel": draw(st.booleans()),
-                "rc": draw(st.sampled_from([0, 0, 0, 1, 2, 255])),
+                # exit status as Popen reports it: 0, 1-255, or negative when the process was killed by a signal
+                "rc": draw(st.sampled_from([0, 0, 0, 0, 1, 2, 255, -9, -15])),
                 "est": draw(st.integers(1, max_est)),
                 "group": draw(st.integers(0, ngroups - 1)) if ngroups > 1 else 0,
             }
@@ -93,7 +94,7 @@ def cancel_scenarios(draw, max_jobs=10):
             "name": f"j{i}",
             "blocked_by": [f"j{b}" for b in blk],
             "cancel": draw(st.sampled_from([True, True, True, False])),
-            "rc": draw(st.sampled_from([0, 0, 0, 1, 3])),
+            "rc": draw(st.sampled_from([0, 0, 0, 0, 1, 3, -9])),
             "est": draw(st.integers(1, 4)),
             "group": draw(st.integers(0, ngroups - 1)) if ngroups > 1 else 0,
         })
